@@ -151,7 +151,8 @@ func (s *Srv) GetAt(path string, nowMS int64) *Resp {
 
 // DoHandler serves one request through any handler, capturing recovered panics.
 func DoHandler(h http.Handler, method, target string, body []byte, hdr map[string]string, remoteAddr string) *Resp {
-	var rd io.Reader
+	// net/http guarantees a non-nil Body for server requests, so an absent body is http.NoBody
+	var rd io.Reader = http.NoBody
 	if body != nil {
 		rd = bytes.NewReader(body)
 	}
